@@ -3,7 +3,7 @@
    Spec.v on the implementation's observation (spec_ok).
    result code: 0 agree & spec_ok, 1 differ & spec_ok, 2 differ & spec fails,
                 3 agree & spec fails (model mirrors a defect) *)
-From Verif Require Export C17.Model C17.Spec.
+From Verif Require Export C17.Model C17.Spec C17.Store.
 Open Scope Z_scope.
 
 Definition code (agree spec_ok : bool) : N :=
@@ -31,7 +31,16 @@ Inductive case :=
 (* PointsWriter.MapShards at time now on a policy of duration dur, point times pts;
    created = (timestamp, group returned) per CreateShardGroup call; err = MapShards failed;
    flags = per point, reported in mapping.Dropped *)
-| CDrop (now dur : Z) (pts : list Z) (created : list (Z * group)) (err : bool) (flags : list bool).
+| CDrop (now dur : Z) (pts : list Z) (created : list (Z * group)) (err : bool) (flags : list bool)
+(* consecutive ticks of ONE real retention.Service (started fresh for the scenario): per tick
+   the input as seen by the fakes and what was observed *)
+| CScen (ticks : list (input * result)) (panicked : bool)
+(* a REAL tsdb.Store built from shs (databases, retention policies, both index types, series
+   with points), observed (o0), then operations DeleteShard / WriteToShard / close+reopen, each
+   with its error code and the observation afterwards (every remaining shard read through
+   Shard.CreateIterator; per database series-file membership, MeasurementNames, TagValues,
+   SeriesCardinality).  dbs = the databases observed. *)
+| CStore (shs : list sshard) (dbs : list N) (o0 : sobs) (steps : list (sop * N * sobs)) (failed : bool).
 
 Definition create_of (created : list (Z * group)) (t : Z) : option group :=
   match find (fun e => fst e =? t) created with Some e => Some (snd e) | None => None end.
@@ -39,7 +48,14 @@ Definition create_of (created : list (Z * group)) (t : Z) : option group :=
 Definition check_case (c : case) : N :=
   match c with
   | CPass i o panicked =>
-      code (negb panicked && result_eqb (pass i) o) (negb panicked && spec_ok i o)
+      code (negb panicked && result_eqb (pass i) o) (negb panicked && tick_ok i o)
+  | CScen ticks panicked =>
+      code (negb panicked && forallb (fun t => result_eqb (pass (fst t)) (snd t)) ticks)
+           (negb panicked && forallb (fun t => tick_ok (fst t) (snd t)) ticks)
+  | CStore shs dbs o0 steps failed =>
+      let st := init_store shs in
+      code (negb failed && valid_shards shs && sobs_eqb o0 (obs_of dbs st) && steps_agree dbs st steps)
+           (negb failed && steps_spec o0 steps)
   | CExp r t ex de =>
       code (list_eqb N.eqb (map g_id (expired_groups r t)) ex && list_eqb N.eqb (map g_id (deleted_groups r)) de)
            (expired_spec r t ex && deleted_spec r de)
